@@ -290,6 +290,9 @@ def run(chk: core.Check, tier: str, seed: int) -> None:
         recs.append({"op": "find", "q": core.enc_text(q), "doc": core.enc_value(doc), "out": "ok", "stage": "find", "jp": True, "cls": "",
                      "locs": items, "reg": probes.reg_records(sig)})
         del env_b, env_c
+    # a stream of short-lived documents through one compiled query (an iterator per document, the document dropped first)
+    recs += common.stream_records(jp, rounds=12 if tier == "quick" else 200)
+    recs += common.stream_records(jp, env=jp.JSONPathEnvironment(), rounds=12 if tier == "quick" else 200)
     chk.notes["threaded_runs"] = runs * 3
     chk.sample({"threaded_record": {"query": core.dec_text(recs[0]["q"]), "threads": recs[0].get("threads"), "locs": recs[0]["locs"]}})
     common.judge(chk, recs, "c16_threads", what="Trace: per-iterator results of threaded runs vs Eval.tla")
